@@ -29,6 +29,8 @@ type V struct {
 	typeTags map[string]int
 	strLits  map[string]string
 	strOrder bool
+	ufRange  map[string]bool
+	heapVers map[string]int
 	axioms   []string
 	closures map[string]*closureInfo
 
@@ -52,6 +54,8 @@ type V struct {
 	opaqueUsed   map[string]bool
 	impureUsed   map[string]bool
 	nEpochs      int
+	pruned       int
+	dryUnknown   bool
 }
 
 func (v *V) note(s string)        { v.notes[s] = true }
@@ -217,6 +221,15 @@ func (v *V) run() {
 	for _, c := range v.spec.Requires {
 		e := v.specEnv(st, nil, fr, scope, spos)
 		st.assume(v.evalClause(e, c))
+	}
+	// axioms stated in the contract files of this package: assumed, and listed as such
+	for _, ax := range v.prog.contracts.Axioms {
+		if ax.PkgPath != fi.pkg.path {
+			continue
+		}
+		e := v.specEnv(st, nil, fr, nil, token.NoPos)
+		st.assume(v.evalClause(e, ax.C))
+		v.trust("axiom " + ax.Name + " (" + shortPkg(ax.PkgPath) + "): " + ax.C.Src)
 	}
 	// ghost locals with initial values
 	for _, g := range v.spec.GhostLocals {
@@ -425,7 +438,7 @@ func (v *V) checkPost(fr *Frame, o Outcome) {
 	}
 	scope, _ := v.funcScope(v.fi)
 	v.nReturns++
-	for k, c := range v.spec.Ensures {
+	mkEnv := func() *Env {
 		e := v.specEnv(o.st, v.entry, fr, scope, v.fi.body.Rbrace)
 		if o.pos.IsValid() && o.pos > v.fi.body.Lbrace && o.pos < v.fi.body.Rbrace {
 			// identifiers (witnesses) resolve in the scope of the return statement
@@ -433,9 +446,7 @@ func (v *V) checkPost(fr *Frame, o Outcome) {
 				e.scope, e.pos = sc, o.pos
 			}
 		}
-		e.proving = true
 		e.retVals = o.rets
-		// in postconditions, parameters (and the receiver) denote their values at entry
 		if rv := v.recvVar(v.fi); rv != nil {
 			if ev, ok := v.entry.vars[rv]; ok && !(v.entry.boxed != nil && v.entry.boxed[rv]) {
 				e.bound[rv.Name()] = ev
@@ -453,6 +464,16 @@ func (v *V) checkPost(fr *Frame, o Outcome) {
 				e.bound[r.Name()] = o.rets[i]
 			}
 		}
+		return e
+	}
+	// ghost assignments at return (e.g. the object's abstract cursor)
+	for _, a := range v.spec.AtReturn {
+		ge := mkEnv()
+		v.assignGhost(ge, a.Target, ge.eval(a.C.Expr))
+	}
+	for k, c := range v.spec.Ensures {
+		e := mkEnv()
+		e.proving = true
 		goal := v.evalClause(e, c)
 		name := fmt.Sprintf("%s/post#%d", v.fi.name(), k)
 		ob := v.addObl(o.st, name, "post", goal, token.NoPos, "ensures "+c.Src, "unsat")
@@ -546,6 +567,27 @@ func (v *V) addModifies(e *Env, m string, out map[string][]string) {
 		add(comp, "", true)
 		return
 	}
+	if strings.HasPrefix(m, "fields(") && strings.HasSuffix(m, ")") {
+		// fields(T): every field of every object of struct type T
+		te, err := parseSpecExpr(m[7 : len(m)-1])
+		if err != nil {
+			panic(bindErr("modifies %s: %v", m, err))
+		}
+		t, ok := v.specTypeOf(e, te)
+		if !ok {
+			panic(bindErr("modifies %s: cannot resolve type", m))
+		}
+		st, ok := t.Underlying().(*types.Struct)
+		if !ok {
+			panic(bindErr("modifies %s: not a struct type", m))
+		}
+		for i := 0; i < st.NumFields(); i++ {
+			comp, sort := v.fieldComp(t, st.Field(i))
+			e.st.heapGet(v.d, comp, sort)
+			add(comp, "", true)
+		}
+		return
+	}
 	if strings.HasPrefix(m, "map(") && strings.HasSuffix(m, ")") {
 		te, err := parseSpecExpr(m[4 : len(m)-1])
 		if err != nil {
@@ -588,8 +630,10 @@ func (v *V) addModifies(e *Env, m string, out map[string][]string) {
 	switch t := x.(type) {
 	case *ast.SelectorExpr:
 		// T.f (all objects) or x.f (one object)
-		if id, ok := t.X.(*ast.Ident); ok {
-			if tt, ok := v.specTypeOf(e, id); ok {
+		_, isId := t.X.(*ast.Ident)
+		_, isQual := t.X.(*ast.SelectorExpr)
+		if isId || isQual {
+			if tt, ok := v.specTypeOf(e, t.X); ok {
 				if st, ok := tt.Underlying().(*types.Struct); ok {
 					for i := 0; i < st.NumFields(); i++ {
 						if st.Field(i).Name() == t.Sel.Name {
@@ -682,8 +726,18 @@ func (v *V) dryMods(fr *Frame, head *State, run func(st *State) []Outcome) loopM
 	savedPaths := v.paths
 	defer func() { v.dry--; v.paths = savedPaths }()
 	probe := head.clone()
+	savedUnknown := v.dryUnknown
+	v.dryUnknown = false
 	outs := run(probe)
 	var m loopMods
+	if v.dryUnknown {
+		// an unmodelled call in the body: every heap component known so far may change
+		for comp := range v.d.heapSorts {
+			m.heap = append(m.heap, comp)
+		}
+		m.alloc = true
+	}
+	v.dryUnknown = savedUnknown || v.dryUnknown
 	seenV := map[*types.Var]bool{}
 	seenG := map[string]bool{}
 	seenH := map[string]bool{}
@@ -731,6 +785,9 @@ func (v *V) havoc(st *State, m loopMods) {
 	}
 	for _, comp := range m.heap {
 		st.heap[comp] = v.d.fresh("hv_"+comp, v.d.heapSorts[comp])
+		if c := v.d.closureFact(comp, st.heap[comp], st.alloc); c != "" {
+			st.define(c)
+		}
 	}
 	for _, obj := range m.vars {
 		if st.boxed != nil && st.boxed[obj] {
@@ -820,6 +877,11 @@ func (v *V) execFor(fr *Frame, s *ast.ForStmt, st *State) []Outcome {
 func (v *V) runLoop(fr *Frame, s ast.Stmt, st *State, ls *LoopSpec, ord int, body *ast.BlockStmt,
 	iter func(head *State) (exits, backs []*State, escapes []Outcome), extra func(st *State) map[string]Val) []Outcome {
 	if ls == nil || (len(ls.Invariants) == 0 && ls.Unroll == 0) {
+		if v.dry > 0 {
+			// modification analysis only: an unspecified loop counts as "may modify everything"
+			v.dryUnknown = true
+			return []Outcome{{kind: OutNormal, st: st}}
+		}
 		if fr != v.top {
 			panic(unsupported("loop inside inlined function %s needs a contract", fr.fi.name()))
 		}
@@ -1095,16 +1157,41 @@ func (v *V) atStmts(e *Env, call *ast.CallExpr, after bool, bind map[string]Val,
 			}
 		case "ghost":
 			val := se.eval(a.C.Expr)
-			cur, ok := e.st.ghost[a.Target]
-			if !ok {
-				panic(bindErr("ghost variable %s is not declared", a.Target))
-			}
-			nv := v.coerce(se, val, cur.T)
-			c := v.d.fresh("ghost_"+a.Target, v.d.sortOf(cur.T))
-			e.st.define(eq(c, nv.S))
-			e.st.ghost[a.Target] = Val{T: cur.T, S: c}
+			v.assignGhost(se, a.Target, val)
 		}
 	}
+}
+
+// assignGhost assigns to a ghost variable (by name) or to a ghost field x.f.
+func (v *V) assignGhost(se *Env, target string, val Val) {
+	st := se.st
+	if i := strings.LastIndex(target, "."); i > 0 {
+		bx, err := parseSpecExpr(target[:i])
+		if err != nil {
+			panic(bindErr("ghost assignment target %s: %v", target, err))
+		}
+		base := se.eval(bx)
+		gf, stt := v.ghostField(base.T, target[i+1:])
+		if gf == nil {
+			panic(bindErr("ghost assignment target %s: no such ghost field", target))
+		}
+		comp, sort, gt := v.ghostFieldComp(stt, gf)
+		nv := v.coerce(se, val, gt)
+		if inv := v.typeInvNoAlloc(Val{T: gt, S: nv.S}); len(inv) > 0 && v.dry == 0 {
+			// ghost fields keep within their declared type's range (the range is assumed of fresh heap versions)
+			v.addObl(st, fmt.Sprintf("%s/ghost-range#%s", v.fi.name(), target), "ghost-range", and(inv...), token.NoPos, "value assigned to ghost field "+target+" is within its type's range", "unsat")
+		}
+		st.heapSet(v.d, comp, sort, fmt.Sprintf("(store %s %s %s)", st.heapGet(v.d, comp, sort), base.S, nv.S))
+		return
+	}
+	cur, ok := st.ghost[target]
+	if !ok {
+		panic(bindErr("ghost variable %s is not declared", target))
+	}
+	nv := v.coerce(se, val, cur.T)
+	c := v.d.fresh("ghost_"+target, v.d.sortOf(cur.T))
+	st.define(eq(c, nv.S))
+	st.ghost[target] = Val{T: cur.T, S: c}
 }
 
 func (v *V) enclosingBlock(n ast.Node) ast.Node {
@@ -1226,17 +1313,38 @@ func (v *V) applyContract(e *Env, fs *FuncSpec, fn *types.Func, recv *Val, args 
 		na := v.d.fresh("alloc", "Int")
 		e.st.define(fmt.Sprintf("(>= %s %s)", na, e.st.alloc))
 		e.st.alloc = na
+		for _, comp := range sortedKeys(mods) {
+			if c := v.d.closureFact(comp, e.st.heap[comp], na); c != "" {
+				e.st.define(c)
+			}
+		}
 	}
 	// 3. results
 	var rets []Val
 	if fs.Pure {
 		// deterministic: result is an uninterpreted function of receiver and arguments
 		sorts, terms := []string{}, []string{}
+		addArg := func(a Val) {
+			if sl, ok := a.T.Underlying().(*types.Slice); ok {
+				// the result depends on the slice's contents, not on its header (buffers are reused)
+				comp, sort := v.memComp(sl.Elem())
+				base, off, ln, _ := v.sliceParts(a.S)
+				row := e.st.heapRead(v.d, comp, sort, base)
+				sorts = append(sorts, fmt.Sprintf("(Array %s %s)", v.d.idxSort(), v.d.sortOf(sl.Elem())), v.d.idxSort(), v.d.idxSort())
+				terms = append(terms, row, off, ln)
+				return
+			}
+			sorts, terms = append(sorts, v.d.sortOf(a.T)), append(terms, a.S)
+		}
 		if recv != nil {
-			sorts, terms = append(sorts, v.d.sortOf(recv.T)), append(terms, recv.S)
+			addArg(*recv)
 		}
 		for _, a := range args {
-			sorts, terms = append(sorts, v.d.sortOf(a.T)), append(terms, a.S)
+			addArg(a)
+		}
+		if fs.PureHeap {
+			// the receiver/arguments are mutable objects: results are only comparable within one heap version
+			sorts, terms = append(sorts, "Int"), append(terms, fmt.Sprintf("%d", v.heapVersion(e.st)))
 		}
 		for i := 0; i < sig.Results().Len(); i++ {
 			rt := sig.Results().At(i).Type()
@@ -1469,4 +1577,28 @@ func argBinding(recv *Val, args []Val) map[string]Val {
 
 func (v *V) inlineLit(e *Env, lit *ast.FuncLit, call *ast.CallExpr) []Val {
 	panic(unsupported("immediately invoked function literal"))
+}
+
+// heapVersion identifies the heap of a state: two states with the same version number have
+// identical heap components (components still at their initial value are left out, so that merely
+// reading a component does not change the version).
+func (v *V) heapVersion(st *State) int {
+	var ks []string
+	for comp, t := range st.heap {
+		if t == "H0_"+sanitize(comp) {
+			continue
+		}
+		ks = append(ks, comp+"="+t)
+	}
+	sort.Strings(ks)
+	key := strings.Join(ks, ";")
+	if v.heapVers == nil {
+		v.heapVers = map[string]int{}
+	}
+	if n, ok := v.heapVers[key]; ok {
+		return n
+	}
+	n := len(v.heapVers)
+	v.heapVers[key] = n
+	return n
 }
